@@ -1,6 +1,8 @@
 package bigslice
 
 import (
+	"context"
+
 	"github.com/grailbio/bigslice/internal/slicecache"
 	"github.com/grailbio/bigslice/sliceio"
 )
@@ -14,4 +16,28 @@ func VerifC13FileReader(path string) sliceio.Reader { return slicecache.VerifC13
 // VerifC13Path is the name of the file of a shard.
 func VerifC13Path(prefix string, shard, numShards int) string {
 	return slicecache.VerifC13Path(prefix, shard, numShards)
+}
+
+// VerifC13CachedShards exposes, for a slice made by Cache, CachePartial or ReadCache,
+// which shards its FileShardCache considers cached (nil for any other slice).
+func VerifC13CachedShards(s Slice) []bool {
+	var c *slicecache.FileShardCache
+	switch v := s.(type) {
+	case *cacheSlice:
+		c = v.cache
+	case *readCacheSlice:
+		c = v.cache
+	default:
+		return nil
+	}
+	out := make([]bool, s.NumShard())
+	for i := range out {
+		out[i] = c.IsCached(i)
+	}
+	return out
+}
+
+// VerifC13Probe: see slicecache.VerifC13Probe.
+func VerifC13Probe(ctx context.Context, prefix string, numShards int, requireAll bool) []bool {
+	return slicecache.VerifC13Probe(ctx, prefix, numShards, requireAll)
 }
